@@ -232,12 +232,13 @@ Proof.
 Qed.
 
 (* every API-level operation is a finite sequence of atomic steps *)
-Theorem step_refines : forall a s o, R a s -> exists l, R (arun H cf a l) (fst (step H cf s o)).
+Theorem step_refines : forall a s o, is_raced o = false -> R a s ->
+  exists l, R (arun H cf a l) (fst (step H cf s o)).
 Proof.
-  intros a s o HR.
+  intros a s o Hrace HR.
   assert (Hsim : forall s', sim a s' -> exists l, R (arun H cf a l) s').
   { intros s' [l [HR' _]]. now exists l. }
-  destruct o; cbn [step].
+  destruct o; cbn [step]; try discriminate Hrace.
   - (* UStart *)
     destruct (valid name); cbn; [|now exists []].
     destruct (exists_blob s name); [apply Hsim; now apply sim_on_conflict|].
@@ -248,6 +249,7 @@ Proof.
     destruct (alookup uid (ups s)); cbn; [|now exists []].
     destruct (stop <? start); cbn; [now exists []|]. exists []. cbn. now apply R_set_ups.
   - (* UCommit *)
+    unfold commit_core.
     destruct (valid name); cbn; [|now exists []].
     destruct (alookup uid (ups s)) as [f|]; cbn; [|now exists []].
     set (s1 := set_ups s (aremove uid (ups s))).
@@ -258,7 +260,7 @@ Proof.
     + eapply sim_trans; [exact Hm|]. intros a1 HRa. destruct cluster.
       * pose proof (sim_write_back a1 s2 name HRa) as Hw. destruct (write_back cf s2 name). exact Hw.
       * pose proof (sim_gen_meta a1 s2 name (c_genpl cf) HRa) as Hw. destruct (gen_meta s2 name (c_genpl cf)). exact Hw.
-    + now apply sim_on_conflict.
+    + pose proof (sim_on_conflict cluster a s1 name HR1) as Hc. destruct (on_conflict cf cluster s1 name). exact Hc.
     + cbn. now apply sim_refl.
   - (* Create *)
     destruct (s_err w); cbn; [now exists []|].
@@ -326,20 +328,22 @@ Qed.
 Lemma R_init : R ainit init.
 Proof. constructor; cbn; [reflexivity|reflexivity|constructor]. Qed.
 
-Theorem exec_refines : forall ops a s, R a s -> exists l, R (arun H cf a l) (exec H cf s ops).
+Theorem exec_refines : forall ops a s, race_free ops = true -> R a s ->
+  exists l, R (arun H cf a l) (exec H cf s ops).
 Proof.
-  induction ops as [|o t IH]; intros a s HR; cbn; [now exists []|].
-  destruct (step_refines a s o HR) as [l1 HR1].
-  destruct (IH _ _ HR1) as [l2 HR2]. exists (l1 ++ l2). now rewrite arun_app.
+  induction ops as [|o t IH]; intros a s Hrf HR; cbn; [now exists []|].
+  cbn in Hrf. apply andb_true_iff in Hrf as [Ho Hrt]. apply negb_true_iff in Ho.
+  destruct (step_refines a s o Ho HR) as [l1 HR1].
+  destruct (IH _ _ Hrt HR1) as [l2 HR2]. exists (l1 ++ l2). now rewrite arun_app.
 Qed.
 
 (* every state the API-level model reaches is reached by the atomic-step system: same cache dir,
    same memory entries, hence the same views *)
-Theorem api_refines_atomic : forall ops, exists l,
+Theorem api_refines_atomic : forall ops, race_free ops = true -> exists l,
   let a := arun H cf ainit l in let s := exec H cf init ops in
   a_disk a = disk s /\ a_mem a = mem s /\ forall name, aview a name = view_of s name.
 Proof.
-  intros ops. destruct (exec_refines ops ainit init R_init) as [l [Hd Hm _]].
+  intros ops Hrf. destruct (exec_refines ops ainit init Hrf R_init) as [l [Hd Hm _]].
   exists l. cbn zeta. repeat split; try assumption.
   intros name. unfold aview, view_of. cbn. now rewrite Hd, Hm.
 Qed.
